@@ -1157,6 +1157,7 @@ M('C11','replace-returns-previous','ds/set_impl.go','''		// elements that are pa
 M('C14','derived3-missing-subscription','ds/reactive/variable.go','''			input2.OnUpdate(func(_, input2 InputType2) {
 				d.Compute(func(currentValue Type) Type { return compute(currentValue, input1.Get(), input2, input3.Get()) })
 			}, true),
+
 			input3.OnUpdate(func(_, input3 InputType3) {
 				d.Compute(func(currentValue Type) Type { return compute(currentValue, input1.Get(), input2.Get(), input3) })
 			}, true),
